@@ -208,6 +208,8 @@ func newDigestFromByteStreamPathCommon(header, trailer []string) (Digest, remote
 			return BadDigest, remoteexecution.Compressor_IDENTITY, status.Errorf(codes.Unimplemented, "Unsupported compression scheme %#v", trailer[1])
 		}
 		trailer = trailer[2:]
+	default:
+		return BadDigest, remoteexecution.Compressor_IDENTITY, status.Error(codes.InvalidArgument, "Invalid resource naming scheme")
 	}
 
 	bareFunction, ok := digestFunctionNameToBareFunction[trailer[0]]
